@@ -331,6 +331,13 @@ Example C02_example_shr_of_float_above_512_bits :
   shift_rc OShr (BigF (FFin false 1 600)) (Num (I64 200)) = Ok (Num (Big (2 ^ 400))).
 Proof. vm_compute. split; reflexivity. Qed.
 
+(* a rational constant is rounded once to the float type (fix 9f165da; it was
+   rounded to 512 bits first): 2^53 + 1 + 10^-400 is 2^53 + 2 as a float64 *)
+Example C02_example_rat_rounded_once :
+  repr_rat KFloat64 (9007199254740993 * 10 ^ 400 + 1) (Z.to_pos (10 ^ 400)) = Ok (F64 (FFin false 4503599627370497 1)) /\
+  repr_rat KFloat32 (16777217 * 10 ^ 400 + 1) (Z.to_pos (10 ^ 400)) = Ok (F64 (FFin false 8388609 1)).
+Proof. vm_compute. split; reflexivity. Qed.
+
 Example C02_example_minint_div : bin_i64 ODiv min64 (-1) = Ok (Num (Big (2 ^ 63))).
 Proof. vm_compute. reflexivity. Qed.
 
